@@ -47,7 +47,12 @@ type Prog struct {
 // Load type-checks and builds SSA for every package under dir (the repository's
 // current working tree).  Any type error or missing library package is an
 // infrastructure failure, not a verdict.
-func Load(dir string) (*Prog, error) {
+func Load(dir string) (*Prog, error) { return load(dir, true) }
+
+// LoadPlain loads an arbitrary module directory (used for the positive-control package).
+func LoadPlain(dir string) (*Prog, error) { return load(dir, false) }
+
+func load(dir string, lib bool) (*Prog, error) {
 	env := append(os.Environ(), "GOFLAGS=-mod=mod", "GOPROXY=off", "GOSUMDB=off", "GOTOOLCHAIN=local", "GOWORK=off")
 	fset := token.NewFileSet()
 	cfg := &packages.Config{Mode: packages.LoadAllSyntax, Dir: dir, Fset: fset, Env: env, Tests: false}
@@ -84,6 +89,27 @@ func Load(dir string) (*Prog, error) {
 		if sp != nil {
 			p.SSAPkgs[pkgs[i].PkgPath] = sp
 		}
+	}
+	if !lib {
+		p.AllFuncs = ssautil.AllFunctions(prog)
+		for fn := range p.AllFuncs {
+			if fn.Blocks != nil && fn.Pkg != nil && p.SSAPkgs[fn.Pkg.Pkg.Path()] != nil {
+				p.LibFuncs = append(p.LibFuncs, fn)
+			}
+		}
+		for fn := range p.AllFuncs {
+			if fn.Blocks != nil && fn.Parent() != nil {
+				top := fn
+				for top.Parent() != nil {
+					top = top.Parent()
+				}
+				if top.Pkg != nil && p.SSAPkgs[top.Pkg.Pkg.Path()] != nil {
+					p.LibFuncs = append(p.LibFuncs, fn)
+				}
+			}
+		}
+		p.NoRet = map[*ssa.Function]bool{}
+		return p, nil
 	}
 	for _, lp := range LibPkgs {
 		if p.SSAPkgs[lp] == nil {
